@@ -273,7 +273,7 @@ func checkC09(c *Check) {
 	nK3c := 0
 	for _, pk := range p.ServerPkgs() {
 		p.AllFuncs([]*packagesPkg{pk}, func(fi *FuncInfo) {
-			if fi.Obj.Name() != "BodyNonAtomic" || fi.Decl.Recv == nil {
+			if refName(fi.Obj) != "BodyNonAtomic" || fi.Decl.Recv == nil {
 				return
 			}
 			info := fi.Info()
@@ -637,7 +637,7 @@ func checkC09(c *Check) {
 						}
 						if ix, ok := ast.Unparen(l).(*ast.IndexExpr); ok && isField(info, ix.X, "remoteDelivery", "connections") {
 							n++
-							if fi.Obj.Name() != "connectionForDomain" {
+							if refName(fi.Obj) != "connectionForDomain" {
 								bad = "the delivery's connection table is written outside connectionForDomain (in " + fi.Name() + ")"
 								badPos = s.Pos()
 							}
@@ -713,7 +713,7 @@ func allocatedOnlyInStart(p *Prog, t *types.Named) bool {
 					return true
 				}
 				n++
-				if fi.Obj.Name() != "Start" && fi.Obj.Name() != "getDelivery" {
+				if refName(fi.Obj) != "Start" && refName(fi.Obj) != "getDelivery" {
 					ok = false
 				}
 				return true
